@@ -122,6 +122,9 @@ func (b *fakeBootstrap) CachedFatalError(err error) (fatalerror.ErrorType, strin
 	return fatalerror.ErrorType(""), "", false
 }
 
+// NewBootstrap returns an interop.Bootstrap for the given command (used by the front-end engine).
+func NewBootstrap(cmd []string, cwd string) interop.Bootstrap { return &fakeBootstrap{cmd: cmd, cwd: cwd} }
+
 var tmpBase = func() string {
 	d := os.Getenv("VERIF_TMP")
 	if d == "" {
